@@ -22,3 +22,9 @@ const void *g_der_buf; const struct ECDSA_SIG_st *g_der_sig;
 int g_lib_fail; unsigned g_ver_calls;
 const void *g_rs_buf, *g_rs_r, *g_rs_s; size_t g_rs_rn, g_rs_sn;
 const char *g_jwk_tracked_str;
+const char *g_dec_last_src; const void *g_dec_last_res; int g_dec_last_len;
+/* JWK import ghosts (contracts/jwk_parse_c.h) */
+const void *g_jwk_tracked_bin;		/* decoding of the tracked JWK member's text (set by the abstract jwt_base64uri_decode) */
+const char *g_push_name_of_tracked;	/* OSSL parameter name that value was pushed under (NULL: not pushed) */
+int g_push_count; const char *g_pkey_type_name; int g_fromdata_selection; size_t g_ossl_bits; int g_pem_private;
+const char *g_ec_point_curve; const void *g_ec_point_x, *g_ec_point_y;
